@@ -293,7 +293,15 @@ func toSqlite(err error) error {
 }
 
 func (c *VirtualTable) Update(value sqlite.Value, values ...sqlite.Value) error {
-	return toSqlite(c.common.Update(c.module.sc.ctx, valueToGo(value), valuesToGo(values)))
+	key := valueToGo(value)
+	goValues := valuesToGo(values)
+	// The binding takes the old and the new key for the same one when their 32-bit integer
+	// readings agree (1 and 4294967297, 1 and 1.5, 1 and '1'): look again before the
+	// new key is ignored.
+	if newKey, assigned := goValues[c.common.KeyCol]; assigned && !s3db.SameKey(key, newKey) {
+		return c.Replace(value, values[c.common.KeyCol], values...)
+	}
+	return toSqlite(c.common.Update(c.module.sc.ctx, key, goValues))
 }
 
 func (c *VirtualTable) Replace(oldValue, newValue sqlite.Value, values ...sqlite.Value) error {
